@@ -21,7 +21,9 @@ Record conn_case := {
   cc_order : list Z;
   cc_note : string;
   cc_segs : list (Z * option bytes);   (* the client's plaintext byte stream as delivered: timed segments, None = end of stream *)
-  cc_eof : Z }.      (* global order of observed sends (0) and calls (1) *)
+  cc_eof : Z;
+  (* every poll_write the transport saw: (bytes offered, bytes accepted or -1 for Pending) *)
+  cc_writes : list (Z * Z) }.
 
 Fixpoint lookup_b {A} (k : bytes) (l : list (bytes * A)) : option A :=
   match l with [] => None | (a, v) :: r => if beq a k then Some v else lookup_b k r end.
@@ -624,12 +626,42 @@ Definition seg_independent (c : conn_case) : bool :=
   let m1 := run1 (case_oracles c) (cc_cfg c) (case_env c) (frames_of (cf_max_len (cc_cfg c)) (cc_segs c)) in
   negb (harmful_class c =? 0) || Z.testbit (cc_flags c) 3 || obsu_eqb (obs_untimed m1) (obs_untimed_impl c).
 
+(* the write side against Conn/SendQueue.v: what send_packet OFFERS to the stream at every
+   poll_write is exactly the queue of the model (the rest of an interrupted frame followed by the
+   frames sent since), for the frames the client eventually received.  [frames] = wire lengths of
+   the frames still to come, in order. *)
+Definition wire_len (id : Z) (body : bytes) : Z :=
+  let inner := Z.of_nat (length (write_varint id) + length body) in
+  Z.of_nat (length (write_varint inner)) + inner.
+Fixpoint writes_ok (fuel : nat) (unsent : Z) (frames : list Z) (ws : list (Z * Z)) : bool :=
+  match ws with
+  | [] => true
+  | (offered, acc) :: r =>
+      match fuel with
+      | O => false
+      | S f =>
+          if offered =? unsent then
+            (if acc <? 0 then writes_ok f unsent frames r
+             else (acc <=? offered) && writes_ok f (unsent - acc) frames r)
+          else if unsent <? offered then
+            match frames with
+            | fl :: frames' => writes_ok f (unsent + fl) frames' ws     (* another frame was queued *)
+            | [] => true        (* a frame the client never saw completely (the connection ended) *)
+            end
+          else false            (* fewer bytes offered than are queued: part of a frame was dropped *)
+      end
+  end.
+Definition obs_writes (c : conn_case) : bool :=
+  writes_ok (2 * (length (cc_writes c) + length (cc_sent c)) + 4) 0
+            (map (fun x => wire_len (snd (fst x)) (snd x)) (cc_sent c)) (cc_writes c).
+
 Definition check_c08c (c : conn_case) : Z :=
   let k := corr_conn2 c in
   if k =? 4 then 4 else
   k + moni (negb (outcome_eqb (cc_outcome c) (OErr KPanic))
             && negb (Z.testbit (cc_flags c) 1)
             && sends_wellformed c
+            && obs_writes c
             && seg_independent c
             && (if Z.testbit (cc_flags c) 0 then true
                 else match first_badlen (frames_of (cf_max_len (cc_cfg c)) (cc_segs c)) with
